@@ -340,6 +340,17 @@ func c09Cases(c *Ctx) []rawCase {
 		{"variadic4-same", "v4", "func v4(a, b, c int, rest ...int) (int, error) { return a, nil }\n"},
 		{"variadic-only", "vo", "func vo(rest ...int) int { return len(rest) }\n"},
 		{"variadic-literal", "func(a string, b bool, rest ...float64) bool { return b }", ""},
+		{"x-nil", "a, nil", "var a = []int{1}\n"},
+		{"nil-x", "nil, a", "var a = []int{1}\n"},
+		{"x-x-nil", "a, a, nil", "var a = []int{1}\n"},
+		{"ptr-nil", "q, nil", "type A struct{ X int }\nvar q *A\n"},
+		{"func-nil", "f, nil", "func f(x int) int { return x }\n"},
+		// argument pairs that are assignable to each other but not identical
+		{"assignable-iface", "pn, ids", "type Namer interface{ Name() string }\ntype ID int\nfunc (ID) Name() string { return \"\" }\nvar ids []ID\nfunc pn(n Namer) bool { return true }\n"},
+		{"assignable-named-elem", "pr, rows", "type Row []int\nvar rows [][]int\nfunc pr(r Row) bool { return true }\n"},
+		{"assignable-named-list", "pi, nl", "type Ints []int\nvar nl Ints\nfunc pi(x int) bool { return true }\n"},
+		{"assignable-item", "rows, r", "type Row []int\nvar rows [][]int\nvar r Row\n"},
+		{"assignable-two-lists", "rows, nrows", "type Row []int\nvar rows [][]int\nvar nrows []Row\n"},
 		{"func-noresult", "g", "func g(x, y int) {}\n"},
 		{"func-noparam", "h", "func h() {}\n"},
 		{"two-funcs-mismatch", "f, k", "func f(x int) (int, error) { return x, nil }\nfunc k(s string) (string, error) { return s, nil }\n"},
@@ -352,14 +363,14 @@ func c09Cases(c *Ctx) []rawCase {
 	}
 	for pi, pl := range plugins {
 		for si, sh := range argShapes {
-			if c.Quick && (pi+si)%2 != int(c.Seed%2) && si > 2 && !strings.HasPrefix(sh.name, "variadic") {
+			if c.Quick && (pi+si)%2 != int(c.Seed%2) && si > 2 && !strings.HasPrefix(sh.name, "variadic") && !strings.HasPrefix(sh.name, "assignable-") && !strings.Contains(sh.name, "nil") {
 				continue
 			}
 			src := "package p\n\n" + sh.pre + "\nfunc use() { derive" + pl + "(" + sh.args + ") }\n"
 			// whether the emitted function's results are used does not matter; the call is a statement
 			// a call whose only argument is a (variadic) function value type-checks against whatever function
 			// goderive agrees to emit for it: accepted means the package must compile
-			wellTyped := strings.HasPrefix(sh.name, "variadic") && !strings.Contains(sh.args, ",") || sh.name == "variadic-literal"
+			wellTyped := strings.HasPrefix(sh.name, "variadic") && !strings.Contains(sh.args, ",") || sh.name == "variadic-literal" || strings.HasPrefix(sh.name, "assignable-")
 			add("args:"+strings.ToLower(pl)+":"+sh.name, fmt.Sprintf("derive%s(%s)", pl, sh.args), src, wellTyped, strings.ToLower(pl), "derive"+pl)
 		}
 	}
